@@ -60,13 +60,14 @@ func All() map[string]orch.PropertySpec {
 		},
 		"C13": {ID: "C13", Level: "model_checking", Assumptions: append([]string{"configuration strings are seeded samples of five classes, not enumerated"}, trusted...),
 			Rule: "cases TLC enumerates from spec/Outbound.tla: (keys) 15 key configurations (encryption / signing key by field, setter or both, four distinct key pairs) x 6 algorithm settings (unset, RSA-SHA1/256/384/512, ECDSA-SHA256 via setter) x 7 canonicaliser settings x 3 message kinds; (shape) every combination of the optional settings x string class; each message is serialised as the bindings do, re-parsed, and its signature analysed independently (SignedInfo canonicalised as declared, SignatureValue checked with crypto/rsa / crypto/ecdsa against all candidate keys, digest recomputed), plus reported and metadata certificates; non-trivial = every signed case",
-			Parts: []orch.Part{{Family: fam.Outbound{}, Monitors: []string{"C13"}}}},
+			Custom: []orch.CustomStep{orch.RaceStep},
+			Parts:  []orch.Part{{Family: fam.Outbound{}, Monitors: []string{"C13"}}, {Family: fam.SigningCtx{}, Monitors: []string{"C13"}}}},
 		"C15": {ID: "C15", Level: "model_checking", Assumptions: append([]string{"configuration strings are seeded samples of five classes, not enumerated"}, trusted...),
 			Rule: "cases TLC enumerates from spec/Outbound.tla (shape and keys sub-spaces): ForceAuthn x IsPassive x NameIdFormat set/unset x RequestedAuthnContext nil / 0..2 contexts x SP issuer set or falling back x clock zone x string class x 3 message kinds; the output is parsed by expat and by encoding/xml (which must agree), children are checked against the SAML schema sequence in TLA+, every value is compared, and the element/attribute skeleton is compared with the one produced by benign strings; non-trivial = every case",
-			Parts: []orch.Part{{Family: fam.Outbound{}, Monitors: []string{"C15"}}}},
+			Parts: []orch.Part{{Family: fam.Outbound{}, Monitors: []string{"C15"}}, {Family: fam.ReconfOut{}, Monitors: []string{"C15"}}}},
 		"C19": {ID: "C19", Level: "model_checking", Assumptions: append([]string{"validity hours are bounded by what time.Duration can represent"}, trusted...),
 			Rule: "cases TLC enumerates from spec/Outbound.tla (meta sub-space): plain / single-logout variant x requested hours x AuthnRequestsSigned x skip-signature x string class x 12 key configurations x clock zone; the marshalled metadata is parsed by expat, compared with configuration, the published signing certificate with the key that verifies a message signed in the same run, the published encryption certificate with the key that decrypts a message encrypted to it in the same run; non-trivial = every case",
-			Parts: []orch.Part{{Family: fam.Outbound{}, Monitors: []string{"C19"}}}},
+			Parts: []orch.Part{{Family: fam.Outbound{}, Monitors: []string{"C19"}}, {Family: fam.ReconfOut{}, Monitors: []string{"C19"}}}},
 		"C14": {ID: "C14", Level: "model_checking", Assumptions: append([]string{"relay-state strings are seeded samples of their class"}, trusted...),
 			Rule: "cases TLC enumerates from spec/Bindings.tla (redirect): AuthnRequest via the Redirect binding, AuthnRequest via BuildAuthURLFromDocument, LogoutRequest x relay-state class (empty, plain, needs escaping, HTML, script, newline, non-ASCII, long, mixed) x IdP URL with / without existing query parameters x SignAuthnRequests x algorithm x 4 key configurations; the URL is analysed from its raw query string (split on & and = without decoding); SAMLRequest is percent-decoded, base64-decoded and raw-inflated and compared with the document; the signature is verified with bare crypto over the octets exactly as they appear; non-trivial = every case",
 			Parts: []orch.Part{{Family: fam.Bindings{}, Monitors: []string{"C14"}}}},
@@ -79,7 +80,7 @@ func All() map[string]orch.PropertySpec {
 		"C17": {ID: "C17", Level: "model_checking", Assumptions: append([]string{"interleavings are controlled at the six observation points of SigningContext() (build tag verif); code between two points runs atomically with respect to the other controlled goroutines"}, trusted...),
 			Rule: "(a) TLC explores every interleaving of N goroutines x K calls of the PlusCal algorithm spec/SigningCtx.tla (quick 2x2, thorough 3x1) with mutual-exclusion, race-freedom, configured-before-visible and termination properties, and emits every complete schedule; each schedule is forced through the real SigningContext() with blocking gates while the goroutines run real signing operations (SigningContext, signed AuthnRequest / LogoutRequest / LogoutResponse); every result is checked against what the call returns alone (signature analysed independently); the observed event sequence is validated step by step against the algorithm by TLC; (b) every operation history of length <= 3 (quick) / 4 (thorough) over 10 public operations plus mutation of the previous result (spec/SpLife.tla) is replayed on one SP: configuration fingerprint before/after each call, result compared with the same call on a fresh SP; (c) a race-detector build runs sleep-slot-steered first-use schedules and an ungated mix of all public operations; distinct = distinct schedules / histories; non-trivial = every one",
 			Custom: []orch.CustomStep{orch.RaceStep},
-			Parts:  []orch.Part{{Family: fam.SigningCtx{}, Monitors: []string{"C17"}}, {Family: fam.SpLife{}, Monitors: []string{"C17"}}, {Family: fam.Reconf{}, Monitors: []string{"C17"}}}},
+			Parts:  []orch.Part{{Family: fam.SigningCtx{}, Monitors: []string{"C17"}}, {Family: fam.SpLife{}, Monitors: []string{"C17"}}, {Family: fam.Reconf{}, Monitors: []string{"C17"}}, {Family: fam.ReconfOut{}, Monitors: []string{"C17"}}}},
 	}
 }
 
